@@ -172,6 +172,7 @@ class Inliner:
         self.only = only
         self.skip = set(skip)
         self.inlined = []     # qualnames of helpers that were inlined (for the evidence)
+        self.local_nodes = [n for n in walk_no_nested(func.node) if isinstance(n, ast.FunctionDef)]
 
     # -- callee resolution
     def resolve(self, call, local_defs):
@@ -194,6 +195,9 @@ class Inliner:
     def eligible(self, h):
         if h is self.func.node or h.name in self.skip or (self.only is not None and h.name not in self.only):
             return False
+        if self.only is None and not isinstance(h, ast.Lambda) and h not in self.local_nodes \
+                and (not h.name.startswith('_') or (h.name.startswith('__') and h.name.endswith('__'))):
+            return False       # public API of the class/module keeps its identity
         a = h.args
         if a.vararg or a.kwarg or a.kwonlyargs:
             return False
